@@ -89,7 +89,15 @@ pub fn gen_tap_tree(t: &mut Tape, max_leaves: usize) -> Option<(TapTree, Vec<(u8
     let mut builder = TaprootBuilder::new();
     let mut leaves = Vec::new();
     for d in &depths {
-        let script = if t.chance(40) { Script::from(vec![0x51]) } else { gen_script(t, false) };
+        // leaf scripts on both sides of the 0xfd compact-size boundary
+        let script = match t.below(12) {
+            0 | 1 => Script::from(vec![0x51]),
+            2 => {
+                let n = t.choose(&[0xfcusize, 0xfd, 0xfe, 0x100, 300]);
+                Script::from(t.filler(n))
+            }
+            _ => gen_script(t, false),
+        };
         let ver = gen_leaf_version(t);
         leaves.push((*d as u8, ver.as_u8(), script.to_bytes()));
         builder = builder.add_leaf_with_ver(*d, script, ver).ok()?;
